@@ -441,3 +441,63 @@ class BwdCalls:
                         self.local(o["l"])
                 if rv["r"] in ("ref", "discr"):
                     self.local(rv["pl"]["l"])
+
+
+FALLIBLE_FROM_UNBOUNDED = [
+    # constructors whose input domain (a slice / digit stream / text of any length) always contains values that do
+    # not fit: the failure outcome must be constructible on a feasible path in EVERY configuration, also (0,0)
+    ("crate::Uint::<BITS, LIMBS>::overflowing_from_limbs_slice", "flag"),
+    ("crate::bytes::<impl crate::Uint<BITS, LIMBS>>::try_from_be_slice", "None"),
+    ("crate::bytes::<impl crate::Uint<BITS, LIMBS>>::try_from_le_slice", "None"),
+    ("crate::base_convert::<impl crate::Uint<BITS, LIMBS>>::from_base_be", "Err"),
+    ("crate::base_convert::<impl crate::Uint<BITS, LIMBS>>::from_base_le", "Err"),
+]
+
+
+def feasible_failure(ctx, config="all", keys=None):
+    from .. import absint
+    rep = Report("R-FLAG/feasible-failure", "constructors from an unbounded input domain (limb slice, byte slice, digit "
+                 "stream) can report failure in every configuration: on the configuration-pruned, interval-feasible CFG "
+                 "of each (BITS, LIMBS) -- including (0,0) and aligned widths -- some path returns the failure outcome "
+                 "(flag not constant false / None / Err)")
+    prog = ctx.prog(config)
+    n = 0
+    for k, kind in FALLIBLE_FROM_UNBOUNDED:
+        if keys and k not in keys:
+            continue
+        b = prog.bodies.get(k)
+        short = k.replace("crate::", "")
+        if b is None:
+            rep.violation("missing:" + short, "", "%s not found" % short)
+            continue
+        bad = []
+        for cfg in ctx.cfgs():
+            n += 1
+            v = prog.view(b, cfg)
+            a = absint.Analysis(v)
+            ok = False
+            for bi in sorted(a.entry):
+                for s in v.blocks[bi]["stmts"]:
+                    if s["s"] != "assign" or s["pl"]["l"] != 0 or s["pl"]["p"]:
+                        continue
+                    rv = s["rv"]
+                    if kind == "flag" and rv["r"] == "agg" and rv.get("kind") == "tuple" and len(rv["ops"]) == 2:
+                        c = v.const_of_operand(rv["ops"][1])
+                        if c is None or c != 0:
+                            ok = True
+                    elif kind in ("None", "Err") and rv["r"] == "agg" and rv.get("variant") == kind:
+                        ok = True
+                t = v.blocks[bi]["term"]
+                if kind == "Err" and t["t"] == "call" and t["dest"]["l"] == 0 and "from_residual" in (ir.callee_name(t["fn"]) or ""):
+                    ok = True
+            if not ok:
+                bad.append(cfg)
+        where = "%s:%s" % (b["file"], b["line"])
+        if bad:
+            rep.violation(short + "|can-fail", where, "%s can never report failure in configuration(s) %s although inputs that do "
+                          "not fit exist for every width (e.g. a non-zero limb for BITS = 0)" % (
+                              short, ", ".join("(%d,%d)" % c for c in bad[:6])))
+        else:
+            rep.ok(short + "|can-fail", where, "failure outcome feasible in %d configurations" % len(ctx.cfgs()))
+    rep.analysed = {"build_config": config, "function_configurations": n}
+    return rep
